@@ -617,8 +617,42 @@ def c16(pid, tier, work, replay):
         exhaustive=True)
 
 
+def c18(pid, tier, work, replay):
+    runs = [("c18-table", "vipsim", ["agenttable", "@TRACE", "@STATUS"], "x")]
+    return event_check(
+        pid, tier, work, "VipAgentTrace", "VipAgentTrace.cfg", [], runs,
+        "complete table over two peer slots: local address class {absent, A, B, loopback} x pool-active class {absent, A, B, loopback, "
+        "unspecified, no address} x declared invalid {no, as id, as enode URI}, squared, x strict peering on/off = 10368 rounds on a light geth "
+        "node (a third of them again on a full node and a light parity node), with targets 0/1/3/5 and pool outcomes (ok, update fails, peer request "
+        "fails with no-hosts / internal / other error, no peers returned) cycled through; all rounds of one configuration are consecutive keep-alive "
+        "rounds of ONE Agent (multi-round histories); compared: the multiset of node calls and the pool calls with arguments",
+        ["node and pool are recording fakes behind the ethnode.EthNode and pool.Pool interfaces"],
+        exhaustive=True)
+
+
+def c20(pid, tier, work, replay):
+    from . import gen_agent as GA
+    s = C.seed()
+    C.build(("sim", "real", "node"))
+    runs = []
+    for i in range(sized(tier, 3, 30)):
+        sp = os.path.join(work, "life-%d.json" % i)
+        json.dump(GA.life_script(s * 100 + i, sized(tier, 25, 60), sized(tier, 30, 50)), open(sp, "w"))
+        runs.append(("c20-life-%d" % i, "vipsim", ["agentlife", sp, "@TRACE", "@STATUS"], "x"))
+    runs.append(("c20-cli", "vipreal", ["agentcli", os.path.join(C.BIN, "vipnode"), "@WORK", "@TRACE", "@STATUS"], "x"))
+    return event_check(
+        pid, tier, work, "VipAgentTrace", "VipAgentTrace.cfg", [], runs,
+        "seeded sequences of start (pool failing at connect / at the k-th keep-alive), start-again while running, two or three concurrent starts "
+        "held inside the pool's connect, sleeps of 1..300 s around multiples of the 30/60/90 s interval under the fake clock, forced updates, stop, "
+        "wait; compared: results of Start/Stop/Wait, exact cumulative number of keep-alives and registrations seen by the pool, goroutines left; "
+        "plus the built `vipnode agent` binary started with 13 --update-interval values from 1 s to 1 h",
+        ["Stop is only issued while a loop runs and Wait only after a loop ended (outside that the calls block by design)"])
+
+
 CHECKS = {
     "C10": c10,
+    "C18": c18,
+    "C20": c20,
     "C16": c16,
     "C17": c17,
     "C14": c14,
